@@ -53,6 +53,7 @@ CONSTANTS
     RetrySet,         \* values of workflowAttributes.repeatRetries
     DieAfterSet,      \* values of kill-after-producers-done-delay in seconds; 0 = option not set
     Modes,            \* kinds of producers, see ModeNames
+    Shapes,           \* how the producers-finished notification reaches the engine, see ShapeNames
     Durations,        \* durations (whole seconds >= 1) the back-end may take for one execution
     Outcomes,         \* outcomes of an execution that is not killed: subset of {"ok", "fail", "rexh"}
     NotifyBy,         \* the producers finish at the latest in the gap that follows this instant
@@ -71,7 +72,32 @@ ModeNames == {"repeatingProducer",  \* same stage, producer repeats: consumable 
               "noCheck"}            \* check-producer-output: false (same stage): no output check at all
 DeviationNames == {"stale-suicide", "stale-check"}
 
-ASSUME Modes \subseteq ModeNames /\ Deviations \subseteq DeviationNames /\ \A d \in Durations : d >= 1
+(* SHAPES: who the producers are and how their end reaches the engine.                                          *)
+(*  "direct": the engine level alone -- one anonymous producer, its end IS the call of                           *)
+(*            notify_all_producers_finished() (any of Modes).                                                    *)
+(*  the others: the observer is a real ComponentState; stageIn() subscribes to notifyFinished of every producer  *)
+(*            component that is still alive and calls notify_all_producers_finished() when ALL of them have       *)
+(*            completed (at once when none is alive).  A producer component is identified by stage AND name: the  *)
+(*            shapes list the observer's references in order, <<stage, name, alive at stageIn>>; the observer is  *)
+(*            in stage 1.                                                                                        *)
+ShapeProducers(shape) ==
+    CASE shape = "direct"               -> << <<1, "producer", TRUE>> >>
+      [] shape = "one"                  -> << <<1, "Simulate", TRUE>> >>
+      [] shape = "two"                  -> << <<1, "Simulate", TRUE>>, <<1, "Analyse", TRUE>> >>
+      [] shape = "sameNameEarlierLast"  -> << <<1, "Simulate", TRUE>>, <<0, "Simulate", FALSE>> >>  \* same name, other stage,
+      [] shape = "sameNameEarlierFirst" -> << <<0, "Simulate", FALSE>>, <<1, "Simulate", TRUE>> >>  \* both reference orders
+      [] shape = "twoAndEarlier"        -> << <<1, "Simulate", TRUE>>, <<0, "Simulate", FALSE>>, <<1, "Analyse", TRUE>>, <<0, "Analyse", FALSE>> >>
+      [] shape = "earlierOnly"          -> << <<0, "Simulate", FALSE>> >>
+ShapeNames == {"direct", "one", "two", "sameNameEarlierLast", "sameNameEarlierFirst", "twoAndEarlier", "earlierOnly"}
+LiveSet(shape) == {i \in 1..Len(ShapeProducers(shape)) : ShapeProducers(shape)[i][3]}   \* the producers that must finish first
+(* what the observer of a run sees of them: finishing producers are events of their own except in "direct" *)
+NLiveSeen(shape) == IF shape = "direct" THEN 0 ELSE Cardinality(LiveSet(shape))
+(* plain producers; one of them in the observer's stage: consumable once it has output *)
+ShapeModes(shape) == IF shape = "direct" THEN Modes
+                     ELSE IF \E i \in 1..Len(ShapeProducers(shape)) : ShapeProducers(shape)[i][1] = 1 THEN {"plainProducer"}
+                     ELSE {"earlierStage"}
+
+ASSUME Shapes \subseteq ShapeNames /\ Modes \subseteq ModeNames /\ Deviations \subseteq DeviationNames /\ \A d \in Durations : d >= 1
 
 PollTime  == 5      \* monitor.CreateMonitor default_polling_time, also the floor in schedule_next_instance
 ForceWait == 20     \* EngineTaskController: producers finished and more than 20 s since the last launch
@@ -119,7 +145,10 @@ HInit == [anyOut   |-> FALSE,  \* producer output exists
           lastOut2 |-> None2,  \* stamp of the last appearance of new output
           nOut     |-> 0,
           pdone    |-> FALSE,  \* notify_all_producers_finished was called
-          tN       |-> 0,      \* instant before the gap in which it was called
+          fin      |-> {},     \* producers (index into ShapeProducers) that have finished since stageIn
+          done     |-> FALSE,  \* every producer that was alive at stageIn has finished
+          early    |-> FALSE,  \* notify_all_producers_finished was called before that
+          tN       |-> 0,      \* instant before the gap in which the last producer finished
           everL    |-> FALSE,  \* an execution was started
           nL       |-> 0,      \* executions started
           lastL    |-> 0,      \* instant of the last start
@@ -135,7 +164,12 @@ HInit == [anyOut   |-> FALSE,  \* producer output exists
 Consumable(hh, mode) == mode = "earlierStage" \/ hh.anyOut
 
 HOutput(hh, s2)  == [hh EXCEPT !.anyOut = TRUE, !.lastOut2 = s2, !.nOut = @ + 1]
-HNotify(hh, t)   == [hh EXCEPT !.pdone = TRUE, !.tN = t]
+(* nl: number of producers whose end the observer of the run sees as events (NLiveSeen) *)
+HPFinish(hh, p, t, nl) == LET f == hh.fin \cup {p} IN
+                          [hh EXCEPT !.fin = f, !.done = @ \/ Cardinality(f) >= nl,
+                                     !.tN = IF ~hh.done /\ Cardinality(f) >= nl THEN t ELSE @]
+HNotify(hh, t, nl) == [hh EXCEPT !.pdone = TRUE, !.early = @ \/ Cardinality(hh.fin) < nl,
+                                 !.done = @ \/ nl = 0, !.tN = IF nl = 0 /\ ~hh.done THEN t ELSE @]
 HTimer(hh)       == [hh EXCEPT !.fired = TRUE]
 HExt(hh)         == [hh EXCEPT !.ext = TRUE]
 HFault(hh)       == [hh EXCEPT !.nFault = @ + 1]
@@ -148,6 +182,10 @@ HTaskEnd(hh, rc) == [hh EXCEPT !.succAfter = @ \/ (hh.lastSaw /\ rc = "ok")]
 
 (* The property, clause by clause (alive / rt = what isAlive() and repeatRetries report) *)
 
+(* 0. the engine is told that its producers have finished only when every producer component that was     *)
+(*    alive when the observer was staged in (identified by stage and name) has finished                    *)
+P0_NotifiedOnlyWhenFinished(hh) == ~hh.early
+
 (* 1. never executes before there is producer output it can consume *)
 P1_NoExecutionBeforeOutput(hh) == ~hh.bad
 
@@ -155,7 +193,7 @@ P1_NoExecutionBeforeOutput(hh) == ~hh.bad
 (*    after their last output appeared -- unless cancelled from outside, never able to consume, or told  *)
 (*    to stop by the configured kill delay (clause 3 lets it stop then)                                  *)
 P2_FinalOutputObserved(hh, alive, mode) ==
-    (hh.pdone /\ ~alive) =>
+    (hh.done /\ ~alive) =>
         \/ ~hh.anyOut
         \/ hh.everL /\ hh.lastOut2 <= 2 * hh.lastL
         \/ hh.ext \/ hh.fired
@@ -164,7 +202,7 @@ P2_FinalOutputObserved(hh, alive, mode) ==
 (* 3. it then stops on its own after a bounded number of further attempts *)
 P3_BoundedAttempts(hh, c) == hh.nAfter <= c.retries0 + 1 /\ ~hh.late
 P3_StopsForAReason(hh, alive, rt) ==
-    (~alive /\ ~hh.ext /\ ~hh.fired) => (hh.pdone /\ (hh.succAfter \/ rt = 0))
+    (~alive /\ ~hh.ext /\ ~hh.fired) => (hh.done /\ hh.pdone /\ (hh.succAfter \/ rt = 0))
 (* bounded time.  The protocol needs: the running execution, then at most retries0+1 deciding attempts, one  *)
 (* more round for an attempt that straddles the notification, each a wait of at most one (poll-rounded)      *)
 (* repeat interval plus an execution.  The property only says "bounded", so the invariant allows TWICE that: *)
@@ -173,7 +211,7 @@ P3_StopsForAReason(hh, alive, rt) ==
 CycleWait(c) == LET w == PollTime * ((c.R + PollTime - 1) \div PollTime) IN IF w < PollTime THEN PollTime ELSE w
 StopBound(c) == LET byRetries == 2 * (c.maxd + (c.retries0 + 2) * (CycleWait(c) + c.maxd) + CycleWait(c))
                 IN IF c.die > 0 THEN Min2(byRetries, c.die + 2) ELSE byRetries
-P3_StopsInTime(hh, alive, c, t) == (hh.pdone /\ alive) => t <= hh.tN + StopBound(c)
+P3_StopsInTime(hh, alive, c, t) == (hh.done /\ alive) => t <= hh.tN + StopBound(c)
 
 ---------------------------------------------------------------------------
 (* exitReason() / isAlive() of RepeatingEngine (lastExecution is only used by restart(), not modelled) *)
@@ -193,14 +231,19 @@ InitWith(c) ==
     /\ cfg = c
     /\ now = -1 /\ pc = "idle" /\ wakeAt = 0
     /\ retries = cfg.retries0
-    /\ cancel = FALSE /\ suicide = FALSE /\ kc = FALSE /\ consume = FALSE /\ pdone = FALSE
-    /\ timer2 = None2 /\ lastL = 0 /\ lastF = -1 /\ begun = 0
+    /\ cancel = FALSE /\ suicide = FALSE /\ kc = FALSE /\ consume = FALSE
+    \* stageIn(): no producer alive -> _notifyProducersFinished() at once (stamp -1)
+    /\ pdone = (LiveSet(c.shape) = {})
+    /\ timer2 = IF LiveSet(c.shape) = {} /\ c.die > 0 THEN 2 * c.die - 1 ELSE None2
+    /\ lastL = 0 /\ lastF = -1 /\ begun = 0
     /\ proc = "none" /\ procRc = "-" /\ procKilled = FALSE
     /\ isNew = FALSE /\ pdwis = FALSE /\ didExec = FALSE
-    /\ h = HInit /\ dev = {} /\ sched = <<>> /\ obs = <<>>
+    /\ h = IF LiveSet(c.shape) = {} THEN HNotify(HInit, -1, 0) ELSE HInit
+    /\ dev = {} /\ sched = <<>> /\ obs = <<>>
 
-Init == \E c \in {[R |-> r, retries0 |-> k, die |-> d, mode |-> m, maxd |-> Max(Durations)] :
-                    r \in Intervals, k \in RetrySet, d \in DieAfterSet, m \in Modes} : InitWith(c)
+Init == \E sh \in Shapes :
+        \E c \in {[R |-> r, retries0 |-> k, die |-> d, mode |-> m, shape |-> sh, maxd |-> Max(Durations)] :
+                    r \in Intervals, k \in RetrySet, d \in DieAfterSet, m \in ShapeModes(sh)} : InitWith(c)
 
 ---------------------------------------------------------------------------
 (* The monitor thread *)
@@ -339,21 +382,25 @@ Tick ==
     /\ UNCHANGED <<cfg, pc, wakeAt, retries, cancel, suicide, kc, consume, pdone, timer2, lastL, lastF, begun, proc,
                    procRc, procKilled, isNew, pdwis, didExec, h, dev, sched, obs>>
 
-(* ComponentState._notifyProducersFinished -> engine.notify_all_producers_finished() *)
-NotifyProducersFinished ==
-    /\ ~pdone
+(* Producer component p finishes.  When it was the last one: ComponentState._notifyProducersFinished ->         *)
+(* engine.notify_all_producers_finished() (delivered at once: the hops are on schedulers the harness drains).  *)
+ProducerFinishes(p) ==
+    /\ p \in LiveSet(cfg.shape) \ h.fin
     /\ Blocked \/ InWindow
     /\ pc = "idle" => AllowPreNotify
-    /\ pdone' = TRUE
-    /\ timer2' = IF cfg.die > 0 /\ Alive THEN Stamp + 2 * cfg.die ELSE None2
-    /\ h' = HNotify(h, now)
-    /\ sched' = Rec(sched, [a |-> "notify", s |-> Stamp])
+    /\ LET last == LiveSet(cfg.shape) \ h.fin = {p}
+           h1 == HPFinish(h, p, now, NLiveSeen(cfg.shape))
+       IN /\ pdone' = last
+          /\ timer2' = IF last /\ cfg.die > 0 /\ Alive THEN Stamp + 2 * cfg.die ELSE timer2
+          /\ h' = IF last THEN HNotify(h1, now, NLiveSeen(cfg.shape)) ELSE h1
+          /\ sched' = Rec(sched, [a |-> IF cfg.shape = "direct" THEN "notify" ELSE "pfinish", s |-> Stamp, p |-> p])
     /\ UNCHANGED <<cfg, now, pc, wakeAt, retries, cancel, suicide, kc, consume, lastL, lastF, begun, proc, procRc,
                    procKilled, isNew, pdwis, didExec, dev, obs>>
+NotifyProducersFinished == \E p \in 1..4 : ProducerFinishes(p)
 
 (* a producer writes new output (only while the producers are running) *)
 NewOutput ==
-    /\ ~pdone /\ h.nOut < MaxOutputs
+    /\ LiveSet(cfg.shape) \ h.fin # {} /\ h.nOut < MaxOutputs
     /\ Blocked \/ (InWindow /\ (now > lastL \/ PreRunOutput))   \* at the primed instant a WINDOW output would tie with
     /\ pc = "idle" => PreRunOutput                              \* lastLaunched: it counts as output that predates run()
     /\ h' = HOutput(h, Stamp)
@@ -403,18 +450,19 @@ Spec == Init /\ [][Next]_vars /\ WF_vars(Next)
 
 ---------------------------------------------------------------------------
 (* Properties of C13 on the model *)
+NotifiedOnlyWhenFinished == P0_NotifiedOnlyWhenFinished(h)
 NoExecutionBeforeOutput == P1_NoExecutionBeforeOutput(h)
 FinalOutputObserved     == P2_FinalOutputObserved(h, Alive, cfg.mode)
 BoundedAttempts         == P3_BoundedAttempts(h, cfg)
 StopsForAReason         == P3_StopsForAReason(h, Alive, retries)
 StopsInTime             == P3_StopsInTime(h, Alive, cfg, now)
-EventuallyStops         == h.pdone ~> ~Alive
+EventuallyStops         == h.done ~> ~Alive
 
 TypeOK ==
     /\ pc \in {"idle", "poll", "begin", "window", "sample", "exec", "decide", "last", "dead"}
     /\ retries \in 0..cfg.retries0 /\ now >= -1 /\ wakeAt >= 0
     /\ proc \in {"none", "running", "stale"} /\ procRc \in {"-", "ok", "fail", "rexh", "killed"}
-    /\ pdone = h.pdone /\ (proc = "running") = (pc = "exec")
+    /\ pdone = h.pdone /\ h.done = h.pdone /\ (h.fin = LiveSet(cfg.shape)) = pdone /\ (proc = "running") = (pc = "exec")
     /\ dev \subseteq Deviations
 (* the engine's own bookkeeping agrees with the observer's history *)
 Consistent ==
@@ -429,6 +477,7 @@ W_StopsOutOfRetries == ~(pc = "dead" /\ ~h.succAfter /\ h.pdone /\ ~h.ext /\ ~h.
 W_StopsByKillDelayIdle == ~(pc = "dead" /\ h.fired /\ h.everL /\ ~h.lastSaw)
 W_ForcedRun == ~(pc = "sample" /\ cfg.mode = "repeatingProducer" /\ pdone /\ ~OutputSince(lastL) /\ isNew)
 W_FaultedCheck == ~(pc = "dead" /\ h.nFault > 0 /\ h.everL)     \* a check raised, later ones saw output, the engine executed
+W_PlumbingNotified == ~(pc = "dead" /\ cfg.shape = "two" /\ h.fin = {1, 2} /\ h.pdone /\ h.succAfter)   \* both producers, then the final run
 W_WindowNotify == ~(pc = "window" /\ pdone /\ h.tN = now /\ h.lastOut2 = 2 * now)
 
 (* the observation a harness can take from the real engine whenever the monitor thread is blocked or gone *)
